@@ -248,7 +248,9 @@ def run_special(arg):
                 viols.append((f"C08:electron:{cfgname}", f"Species({name!r}): (is_electron, charge, is_atom, A) = {got}", {"config": cfgname, "name": name}))
         # pseudo-element affixes of the default list: excited '*', cyclic 'c-', linear 'l-'
         if cfg["elements"] is None:
-            for name, ec, A in (("H2*", {"H": 2}, 2.0), ("c-C3H2", {"C": 3, "H": 2}, 38.0), ("l-C3H", {"C": 3, "H": 1}, 37.0), ("oH2*", {"H": 2}, 2.0)):
+            for name, ec, A in (("H2*", {"H": 2}, 2.0), ("c-C3H2", {"C": 3, "H": 2}, 38.0), ("l-C3H", {"C": 3, "H": 1}, 37.0), ("oH2*", {"H": 2}, 2.0),
+                                 # the marker INSIDE a name, followed by one- and two-letter symbols and a charge
+                                 ("H2*O", {"H": 2, "O": 1}, 18.0), ("C*H2", {"C": 1, "H": 2}, 14.0), ("C*O2", {"C": 1, "O": 2}, 44.0), ("H*He", {"H": 1, "He": 1}, 5.0), ("C*H*O", {"C": 1, "H": 1, "O": 1}, 29.0)):
                 n += 1
                 try:
                     sp = Species(name, **kw)
